@@ -631,20 +631,25 @@ func (x *Exec) intrinsic(st *State, fr *Frame, resInstr ssa.Instruction, name st
 		}
 		x.sym.note("sync/atomic operations are sequentially consistent single steps")
 		// the operation is also an event on the address: on("atomic", &x.f) ("this counter is only ever updated atomically")
-		st.events = append(st.events, &Event{Kind: "atomic", Name: "atomic." + op, Callee: p, Args: args[1:], Index: len(st.events)})
+		aev := &Event{Kind: "atomic", Name: "atomic." + op, Callee: p, Args: args[1:], Index: len(st.events)}
+		st.events = append(st.events, aev)
 		switch {
 		case strings.HasPrefix(op, "Add"):
 			old := x.loadP(st, p).(Scalar)
 			nv := Scalar{x.arithResult(st, old.Typ, mk(SInt, "+", old.T, args[1].(Scalar).T), "atomic add"), old.Typ}
 			x.storeP(st, p, nv)
+			aev.Results = []Value{nv}
 			set(nv)
 		case strings.HasPrefix(op, "Load"):
-			set(x.loadP(st, p))
+			lv := x.loadP(st, p)
+			aev.Results = []Value{lv} // ret(on("atomic", &x.f), 0, k): what the k-th atomic operation on x.f read
+			set(lv)
 		case strings.HasPrefix(op, "Store"):
 			x.storeP(st, p, retype(args[1], pointee(p)))
 		case strings.HasPrefix(op, "Swap"):
 			old := x.loadP(st, p)
 			x.storeP(st, p, retype(args[1], pointee(p)))
+			aev.Results = []Value{old}
 			set(old)
 		case strings.HasPrefix(op, "CompareAndSwap"):
 			cur := x.loadP(st, p)
